@@ -124,12 +124,12 @@ class LtlAstParserVisitor(LtlParserVisitor):
         # fetch the variable name, type and io signature
         const_name = ctx.Identifier().getText()
         const_type = ctx.domainType().getText()
-        const_value = ctx.literal().getText()
+        const_value = ctx.literal().getText().replace('_', '')
         try:
             float(const_value)
         except ValueError:
-            # hexadecimal, binary or underscored integer literal
-            const_value = str(int(const_value.replace('_', ''), 0))
+            # hexadecimal or binary integer literal
+            const_value = str(int(const_value, 0))
 
         self.declare_const(const_name, const_type, const_value)
 
@@ -224,12 +224,12 @@ class LtlAstParserVisitor(LtlParserVisitor):
         return node
 
     def visitExprLiteral(self, ctx):
-        text = ctx.literal().getText()
+        text = ctx.literal().getText().replace('_', '')
         try:
             val = float(text)
         except ValueError:
-            # hexadecimal, binary or underscored integer literal
-            val = float(int(text.replace('_', ''), 0))
+            # hexadecimal or binary integer literal
+            val = float(int(text, 0))
         node = Constant(val)
         self.phi_name_to_node_dict[node.name] = node
         return node
